@@ -51,6 +51,77 @@ def ob_alias_table(ctx: Ctx) -> Outcome:
     return Outcome.ok("table", count=n)
 
 
+def probe_triple_quotes():
+    """Concrete stand-in for C03.R4: single- and triple-quoted spellings of escape-heavy bodies lex to the same value."""
+    from octave_mcp.core.lexer import tokenize
+
+    bad = []
+    bodies = ["", "a", "a b", '\\"', 'x\\"', '\\"x', "\\\\", 'a\\\\\\"', "\\n", "é\\t", 'say \\"hi\\"', "a\\\\"]
+    for b in bodies:
+        outs = []
+        for q in ('"', '"' * 3):
+            try:
+                toks, _ = tokenize("K::" + q + b + q + "\n")
+                outs.append([(t.type.name, t.value) for t in toks])
+            except Exception as e:  # noqa: BLE001
+                outs.append(f"{type(e).__name__}: {e}")
+        if outs[0] != outs[1]:
+            bad.append(f"body {b!r}: single-quoted {outs[0]!r} vs triple-quoted {outs[1]!r}")
+    return (bool(bad), "; ".join(bad[:3]) or f"{len(bodies)} bodies lex alike in both spellings")
+
+
+def replay_triple_quotes():
+    return probe_triple_quotes()
+
+
+def ob_triple_quotes(ctx: Ctx) -> Outcome:
+    """C03.R4 (the `triple quotes` freedom, all bodies): for every lexeme "e" of the single-quoted STRING pattern,
+    the spelling \"\"\"e\"\"\" (followed by end of input or by any character other than a quote) makes tokenize fire
+    the triple-quoted STRING pattern on exactly that spelling — whatever the previous character. Together with the
+    pinned STRING branch (value = matched_text[3:-3] / [1:-1], then ONE shared unescape pass) both spellings give
+    the same token value. Language inclusion on the DFAs of the real TOKEN_PATTERNS; no length bound."""
+    from verif.common import shape_verdict
+    from verif.reglang import tokmodel
+
+    al = alphabet()
+    try:
+        pats = tokmodel.token_patterns()
+        LX.lexer_unescape()  # pins the stripping + shared unescape pass of the STRING branch
+    except extract.ExtractionError as e:
+        return shape_verdict("dfa", [str(e)], probe_triple_quotes, count=1, replay={"runner": "props.C03:replay_triple_quotes", "args": {}})
+    strs = [(i, p) for i, (p, t) in enumerate(pats) if t == "STRING"]
+    tri = [(i, p) for i, p in strs if p.startswith('"""')]
+    one = [(i, p) for i, p in strs if not p.startswith('"""')]
+    if len(tri) != 1 or len(one) != 1:
+        return shape_verdict("dfa", [f"TOKEN_PATTERNS has {len(tri)} triple-quoted and {len(one)} single-quoted STRING patterns (contract expects one each)"], probe_triple_quotes, count=1, replay={"runner": "props.C03:replay_triple_quotes", "args": {}})
+    ti = tri[0][0]
+    single = A.dfa_regex(one[0][1], 0, None, al)
+    quote = frozenset({al.cls('"')})
+    follow_any = A.concat(al, [al.all - quote, A.sigma_star(al)])
+    wits = []
+    n = 0
+    for prev_char in (None, ":", "a", " ", "["):
+        sm = tokmodel.step_model(prev_char)
+        prev = None if prev_char is None else al.cls(prev_char)
+        fire = sm.Fire[ti]
+        for tail_name, tail in (("end of input", None), ("a non-quote character", follow_any)):
+            n += 1
+            parts = ['""', single, '""', A.nfa_mark(al)] + ([tail] if tail is not None else [])
+            want = A.concat(al, parts, prev)
+            bad = want - fire
+            if not bad.is_empty():
+                w = bad.witness_str()
+                text = w.replace("‹", "")
+                wits.append(Witness(what=f"triple-quoted spelling {text!r} (previous character {prev_char!r}, followed by {tail_name}) is not lexed as one triple-quoted STRING token ending at ‹ in {w!r}", key=f"{prev_char}|{tail_name}", input=text, replay={"runner": "props.C03:replay_triple_quotes", "args": {}}))
+    if wits:
+        failed, ptext = probe_triple_quotes()
+        for w in wits:
+            w.confirmed = failed
+            w.verifier_output = ptext
+        return Outcome.refuted("dfa", wits, count=n)
+    return Outcome.ok("dfa", count=n)
+
+
 def ob_bare_no_ascii_ops(ctx: Ctx) -> Outcome:
     """C03.R2: no string that needs_quotes leaves bare contains an ASCII operator alias (-> <-> + ~ | & #) or
     `vs` as a separate word: outside quotes the emitter writes Unicode operators only."""
@@ -189,6 +260,7 @@ def obligations(ctx: Ctx):
         Ob(f"{P}.F2", "F", "INDENT is emitted exactly for spaces at the start of a line that are followed by something other than the line end", ["octave_mcp.core.lexer:tokenize"], ob_indent_guard),
         Ob(f"{P}.R1", "R", "every ASCII alias normalises to the Unicode operator of the same kind", ["octave_mcp.core.lexer:tokenize"], ob_alias_table),
         Ob(f"{P}.R2", "R", "bare emission contains no ASCII operator alias", LX.FUNCS_EMIT, ob_bare_no_ascii_ops),
+        Ob(f"{P}.R4", "R", "the triple-quote freedom for every body: \"\"\"e\"\"\" fires the triple-quoted STRING pattern on exactly that spelling for every single-quoted lexeme \"e\"; both spellings share one unescape pass", ["octave_mcp.core.lexer:tokenize"], ob_triple_quotes),
         Ob(f"{P}.R3.ident", "R", "bare identifier-class strings re-lex to one IDENTIFIER token (no `vs`/literal token inside)", LX.FUNCS_EMIT + LX.FUNCS_LEX, partial(LX.ob_ident, oid=f"{P}.R3", which="ident")),
         Ob(f"{P}.R3.expr", "R", "bare operator expressions re-lex to IDENTIFIER / Unicode operator tokens only", LX.FUNCS_EMIT + LX.FUNCS_LEX, partial(LX.ob_expr, oid=f"{P}.R3")),
         Ob(f"{P}.B1", "B", "every combination of lenient rewrites converges on the canonical bytes; canonical text is in the strict profile", ["octave_mcp.core.parser:parse_with_warnings", "octave_mcp.core.emitter:emit"], ob_b1, timeout=3000),
